@@ -34,6 +34,10 @@ import (
 	"context"
 	"errors"
 	"fmt"
+	"go/ast"
+	"go/parser"
+	"go/token"
+	"math/big"
 	"os"
 	"path/filepath"
 	"runtime"
@@ -43,12 +47,16 @@ import (
 	"sync"
 	"time"
 
+	"keepverif/harness/c07/dkgrun"
 	"keepverif/harness/hx"
 
 	"github.com/ipfs/go-log/v2"
 	"github.com/keep-network/keep-core/pkg/net"
 	"github.com/keep-network/keep-core/pkg/protocol/group"
 	"github.com/keep-network/keep-core/pkg/protocol/state"
+	"github.com/keep-network/keep-core/pkg/tecdsa"
+	"github.com/keep-network/keep-core/pkg/tecdsa/dkg"
+	"github.com/keep-network/keep-core/pkg/tecdsa/signing"
 )
 
 const waitTimeout = 20 * time.Second
@@ -336,8 +344,179 @@ func parseEvents(s string) ([]event, bool) {
 	return out, true
 }
 
+// ---- the real tecdsa state chains (structural walk) ---------------------------------
+// Op line: chain dkg | chain signing.  The REAL state chain is walked with Next() from the initial
+// state built by the C07/C08 hooks on fixture key shares. Before every Next a marker message is
+// put into the history through the current state; `kept` = the state sees every earlier marker
+// (Next handed the history over), `same` = the marker is visible through the INITIAL state too
+// (one shared BaseAsyncState instance). The type sequence is compared with the chain read from
+// the sources (Gen/C15.lean).
+
+type historian interface {
+	ReceiveToHistory(net.Message)
+	GetAllReceivedMessages(string) []net.Message
+}
+
+type markerMsg struct{ toyMsg }
+
+func (m *markerMsg) Type() string { return "verif/marker" }
+
+func realInitial(which string) state.AsyncState {
+	seats := []int{1, 2, 3}
+	switch which {
+	case "dkg":
+		return dkg.VerifC07NewMember(dkgrun.Logger, big.NewInt(1000), 1, 3, 1,
+			dkgrun.Validator(seats), "verif", dkgrun.PreParams(0)).InitialState(nil)
+	case "signing":
+		return signing.VerifC08InitialState(dkgrun.Logger, big.NewInt(100), "verif", 1,
+			tecdsa.NewPrivateKeyShare(dkgrun.Fixture(0)), 3, 1, nil, dkgrun.Validator(seats))
+	}
+	return nil
+}
+
+func shortType(v interface{}) string {
+	t := fmt.Sprintf("%T", v)
+	if i := strings.LastIndex(t, "."); i >= 0 {
+		t = t[i+1:]
+	}
+	return t
+}
+
+func runChain(which string) (string, string) {
+	st := realInitial(which)
+	if st == nil {
+		return "bad-op", "bad"
+	}
+	first, ok := st.(historian)
+	if !ok {
+		return "types=- kept=- same=- end=nohistory", "chain"
+	}
+	var types, kept, same []string
+	end := "nil"
+	b := func(x bool) string {
+		if x {
+			return "1"
+		}
+		return "0"
+	}
+	for i := 0; i < 64; i++ {
+		h, ok := st.(historian)
+		if !ok {
+			end = "nohistory"
+			break
+		}
+		types = append(types, shortType(st))
+		kept = append(kept, b(len(h.GetAllReceivedMessages("verif/marker")) == i))
+		h.ReceiveToHistory(&markerMsg{toyMsg{9, i}})
+		same = append(same, b(len(first.GetAllReceivedMessages("verif/marker")) == i+1))
+		nx, err := st.Next()
+		if err != nil {
+			end = "err"
+			break
+		}
+		if nx == nil {
+			break
+		}
+		st = nx
+	}
+	return fmt.Sprintf("types=%s kept=%s same=%s end=%s", hx.JoinStrs(types), hx.JoinStrs(kept), hx.JoinStrs(same), end), "chain+" + which
+}
+
+// srcChain reads the chain from the sources: for every `func (r *T) Next()` of relFile the type
+// of the returned `&U{…}` and whether U is given `BaseAsyncState: r.BaseAsyncState`.
+func srcChain(relFile, initial string) (types []string, handsOver []string) {
+	root := os.Getenv("VERIF_REPO")
+	if root == "" {
+		root = "/repo"
+	}
+	fset := token.NewFileSet()
+	file, err := parser.ParseFile(fset, filepath.Join(root, relFile), nil, 0)
+	if err != nil {
+		return []string{"parse-error"}, nil
+	}
+	next := map[string]string{}
+	keeps := map[string]bool{}
+	for _, d := range file.Decls {
+		fd, ok := d.(*ast.FuncDecl)
+		if !ok || fd.Name.Name != "Next" || fd.Recv == nil || len(fd.Recv.List) != 1 || fd.Body == nil {
+			continue
+		}
+		star, ok := fd.Recv.List[0].Type.(*ast.StarExpr)
+		if !ok {
+			continue
+		}
+		recvType := star.X.(*ast.Ident).Name
+		recvName := ""
+		if len(fd.Recv.List[0].Names) == 1 {
+			recvName = fd.Recv.List[0].Names[0].Name
+		}
+		ast.Inspect(fd.Body, func(n ast.Node) bool {
+			rs, ok := n.(*ast.ReturnStmt)
+			if !ok || len(rs.Results) == 0 {
+				return true
+			}
+			ue, ok := rs.Results[0].(*ast.UnaryExpr)
+			if !ok {
+				return true
+			}
+			cl, ok := ue.X.(*ast.CompositeLit)
+			if !ok {
+				return true
+			}
+			id, ok := cl.Type.(*ast.Ident)
+			if !ok {
+				return true
+			}
+			next[recvType] = id.Name
+			for _, e := range cl.Elts {
+				kv, ok := e.(*ast.KeyValueExpr)
+				if !ok {
+					continue
+				}
+				if k, ok := kv.Key.(*ast.Ident); ok && k.Name == "BaseAsyncState" {
+					if sel, ok := kv.Value.(*ast.SelectorExpr); ok && sel.Sel.Name == "BaseAsyncState" {
+						if x, ok := sel.X.(*ast.Ident); ok && x.Name == recvName {
+							keeps[recvType] = true
+						}
+					}
+				}
+			}
+			return true
+		})
+	}
+	cur := initial
+	for i := 0; i < 64; i++ {
+		types = append(types, cur)
+		nx, ok := next[cur]
+		if !ok {
+			break
+		}
+		if keeps[cur] {
+			handsOver = append(handsOver, "1")
+		} else {
+			handsOver = append(handsOver, "0")
+		}
+		cur = nx
+	}
+	return
+}
+
+func facts() []string {
+	dt, dk := srcChain("pkg/tecdsa/dkg/states.go", shortType(realInitial("dkg")))
+	st, sk := srcChain("pkg/tecdsa/signing/states.go", shortType(realInitial("signing")))
+	return []string{
+		"strlist dkgChain " + strings.Join(dt, ","),
+		"natlist dkgNextKeepsHistory " + hx.JoinStrs(dk),
+		"strlist signingChain " + strings.Join(st, ","),
+		"natlist signingNextKeepsHistory " + hx.JoinStrs(sk),
+	}
+}
+
 func run(op string) (string, string) {
 	f := strings.Fields(op)
+	if len(f) == 2 && f[0] == "chain" {
+		return runChain(f[1])
+	}
 	if len(f) != 3 || f[0] != "async" {
 		return "bad-op", "bad"
 	}
@@ -726,7 +905,7 @@ func genBusy(r *hx.Rng) string {
 }
 
 func gen(r *hx.Rng, n int, tier string) []string {
-	var ops []string
+	ops := []string{"chain dkg", "chain signing"}
 	for i := 0; i < n; i++ {
 		k := r.Range(1, 4)
 		var ss []string
@@ -855,5 +1034,6 @@ func main() {
 		Gen:          gen,
 		Exec:         exec,
 		PerOpTimeout: 10 * time.Minute,
+		Facts:        facts,
 	})
 }
